@@ -73,6 +73,11 @@ def gen(ch):
     ob = dict(type="OrderBook", name="ob", nodes=["n1"],
               orders=dict(start=[g.instant_iso(s) for (s, e), c, p in O], end=[g.instant_iso(e) for (s, e), c, p in O],
                           capa=[S.r(c, g) for _, c, p in O], price=[p for _, c, p in O]))
+    if ch.pick("duplicate", [False, True]):   # the same offer twice: two orders, two execution variables
+        for key in ("start", "end", "capa", "price"):
+            ob["orders"][key] = ob["orders"][key] + [ob["orders"][key][0]]
+    if ch.pick("orders_form", ["dict", "DataFrame"]) == "DataFrame":
+        ob["orders_df"] = True
     if ch.pick("full_exec", [False, True]):
         ob["full_exec"] = True
     w = ch.pick("ob.wacc", [0.0, 0.3])
